@@ -7,7 +7,7 @@ SPEC = dict(
          "History2HistoryDagger, serLastAccOut, lastAccOutRoot, AppendAndCommitMmr, MapWorkReportFromEg, NewItem, AddItem2BetaHPrime); posterior "
          "beta committed as the next prior; a quarter of the blocks are executed but NOT committed (fork sibling / block rejected later): the next "
          "block then runs from the very same prior-state object and is compared with the model applied to the committed prior value. H = 8 and (through an add-only export of the package variable) 1, 2, 3, 5; C = 2, 1..4, 341; prior "
-         "histories empty / partial / full / over-long, prior belts with empty positions, 0..C+1 guarantees (close hashes, repeated pairs, hashes "
+         "histories empty / partial / full / over-long (over-long = outside the state invariant: only `at most H entries after every block` is required there), prior belts with empty positions, 0..C+1 guarantees (close hashes, repeated pairs, hashes "
          "reported before), 0..47 accumulation outputs. Compared observable after EVERY block: all entries (header hash, state root, commitment, "
          "reported pairs in order) and all belt peaks, recomputed by the model with its own Blake2b / Keccak; non-trivial = every block produced "
          "a history; distinct by input. The trailing '# alias=' token (PRIOR beta object mutated in place) is informational, not compared.",
@@ -18,6 +18,30 @@ SPEC = dict(
 
 def nontrivial(inp, out):
     return "err" not in out.split(" # ")[0].split(" / ") and not out.startswith("GOPANIC")
+
+
+def ignore(m):
+    """A history whose PRIOR list is over-long (n0 > H entries: outside the state invariant, rejected by BlocksHistory.Validate and the
+    codec, never produced by the transition) is outside the property's quantifier (block histories): which of the surplus entries
+    survive is not fixed by the property, and the clause 'all other entries are unchanged' cannot hold under any choice. Only the
+    clause that can hold is kept for such a case: after every block the list has at most H entries. (Until the harmless-change
+    campaign the code's choice - entries 1..H-1 - was compared: neutral/C25/N2 keeps the newest H-1 instead and was alarmed.)"""
+    t = m["input"].split(" ")
+    try:
+        H, n0 = int(t[0]), int(t[4])
+    except (ValueError, IndexError):
+        return None
+    if t[3] != "H" or n0 <= H:
+        return None
+    body = m["impl"].split(" # ")[0]
+    for blk in body.split(" / "):
+        if not blk.startswith("E"):
+            return None                      # err / GOPANIC / anything unexpected: not ignored
+        ents = blk.split(" M")[0][1:].strip()
+        n = 0 if not ents else len(ents.split(" ;"))
+        if n > H:
+            return None                      # more than H entries after a block: the property's first clause fails
+    return "over-long prior history (outside the state invariant and the property's quantifier); at most H entries after every block holds"
 
 
 def signature(m):
